@@ -12,7 +12,7 @@ BASE = dict(
     prio=0.5, pin=0.1, contstart=0.0, milestone=0.05,
     rleave=0.15, vac=0.15, gleave=0.1, hours=0.0, shift=0.0, tz=0.0, xmid=0.0,
     rdaily=0.0, rweekly=0.0, gdaily=0.0, tdaily=0.0, tweekly=0.0, tlimres=0.0,
-    alap=0.0, taskalap=0.0, starts=[MON], dur=[("w", 4), ("w", 6), ("d", 20)], midstart=0.0,
+    alap=0.0, taskalap=0.0, dupid=0.0, starts=[MON], dur=[("w", 4), ("w", 6), ("d", 20)], midstart=0.0,
 )
 
 FAMILIES = {
@@ -25,14 +25,14 @@ FAMILIES = {
     "limits": dict(rdaily=0.6, rweekly=0.5, gdaily=0.4, tdaily=0.4, tweekly=0.3, tlimres=0.3, group=0.6, nest=0.5, team=0.2,
                    efforts=[240, 480, 960, 1920, 2400], dur=[("w", 1), ("d", 13), ("w", 3)], ntasks=(1, 5),
                    starts=[MON, 1798761600, 1798761600 - 3 * 86400, 1609113600, 1735516800, 1736035200, MON + 13 * 3600], G=[3600, 3600, 1800, 900]),
-    "deps": dict(nest=0.6, depth=3, dep=0.8, precedes=0.3, rel=0.5, contdep=0.5, contstart=0.3, onstart=0.25, pin=0.15,
+    "deps": dict(dupid=0.4, nest=0.6, depth=3, dep=0.8, precedes=0.3, rel=0.5, contdep=0.5, contstart=0.3, onstart=0.25, pin=0.15,
                  gap=[0, 60, 120, 480, 1440, 90, 30], ntasks=(3, 9), hours=0.2),
-    "coredeps": dict(nest=0.6, depth=3, dep=0.8, precedes=0.3, rel=0.5, contdep=0.5, contstart=0.3, onstart=0.25, pin=0.15,
+    "coredeps": dict(dupid=0.3, nest=0.6, depth=3, dep=0.8, precedes=0.3, rel=0.5, contdep=0.5, contstart=0.3, onstart=0.25, pin=0.15,
                      gap=[0, 60, 120, 480, 1440], ntasks=(3, 9), rdaily=0.2, team=0.2, G=[3600, 3600, 1800]),
-    "alap": dict(alap=1.0, nest=0.4, dep=0.7, gap=[0, 0, 60, 120, 480], onstart=0.0, precedes=0.1, pin=0.0, milestone=0.0,
+    "alap": dict(alap=1.0, dupid=0.5, nest=0.5, dep=0.7, gap=[0, 0, 60, 120, 480], onstart=0.0, precedes=0.1, pin=0.0, milestone=0.0,
                  efforts=[60, 120, 240, 480, 90, 45], effs=["1.0", "1.0", "0.5", "2.0"], contdep=0.2, ntasks=(2, 6)),
     "taskalap": dict(taskalap=0.5, dep=0.4, onstart=0.0, pin=0.0, efforts=[60, 120, 240, 90], ntasks=(1, 5), milestone=0.0),
-    "trees": dict(nest=0.8, depth=4, ntasks=(3, 10), dep=0.3, milestone=0.15, pin=0.15, contdep=0.3, unsched=0.3),
+    "trees": dict(dupid=0.3, contstart=0.3, nest=0.8, depth=4, ntasks=(3, 10), dep=0.3, milestone=0.15, pin=0.15, contdep=0.3, unsched=0.3),
 }
 
 
@@ -130,10 +130,17 @@ def gen(rng, cfg):
     conts = []             # (path, node)
     counter = [0]
 
+    local = {}
+
     def mkleaf(path_prefix):
         i = counter[0]
         counter[0] += 1
         n = {"id": f"t{i}"}
+        if path_prefix and rng.random() < cfg["dupid"]:
+            # local ids may repeat in different containers (siblings stay unique)
+            k = local.get(path_prefix, 0)
+            local[path_prefix] = k + 1
+            n["id"] = f"w{k}"
         if rng.random() < cfg["milestone"]:
             n["milestone"] = True
         else:
@@ -301,5 +308,40 @@ def small_universe(ctx, sample=None):
             if ds:
                 n["deps"] = ds
             ap["tasks"].append(n)
+        out.append(ap)
+    return out
+
+
+def prio_family(ctx, n):
+    """priority situations: a high-priority task that becomes ready only when a container completes,
+    next to ready lower-priority work on the same resources (C07, C09)"""
+    rng = ctx.rng
+    out = []
+    for i in range(n):
+        nres = rng.randint(1, 2)
+        ap = {"start": MON, "dur": ("w", 4), "G": 3600, "tz": "Etc/UTC", "vac": [], "gleaves": [], "shifts": {},
+              "resources": [{"id": f"r{k}", "eff": "1.0", "leaves": []} for k in range(nres)], "tasks": [],
+              "_family": "prio", "_i": i}
+        rid = lambda: f"r{rng.randrange(nres)}"
+        top = []
+        kids = [{"id": f"k{j}", "effort": rng.choice([60, 120, 240]), "alloc": [rid()], "prio": rng.choice([None, 300, 500, 700])}
+                for j in range(rng.randint(1, 3))]
+        for kd in kids:
+            if kd["prio"] is None:
+                del kd["prio"]
+        cont = {"id": "cont", "kids": kids}
+        if rng.random() < 0.4:
+            cont = {"id": "outer", "kids": [cont]}
+        top.append(cont)
+        cpath = ["outer", "cont"] if cont["id"] == "outer" else ["cont"]
+        top.append({"id": "high", "effort": rng.choice([60, 120, 180]), "alloc": [rid()], "prio": rng.choice([800, 900]),
+                    "deps": [{"to": cpath if rng.random() < 0.7 else cpath[:1], "style": rng.choice(["abs", "rel"])}]})
+        for j in range(rng.randint(1, 3)):
+            t = {"id": f"o{j}", "effort": rng.choice([60, 120, 240, 480]), "alloc": [rid()], "prio": rng.choice([100, 200, 400, 600])}
+            if rng.random() < 0.3:
+                t["deps"] = [{"to": cpath + [kids[0]["id"]], "style": "abs"}]
+            top.append(t)
+        rng.shuffle(top)
+        ap["tasks"] = top
         out.append(ap)
     return out
